@@ -105,6 +105,44 @@ theorem heat_cancels (k A : R) (arr : Arr) (nx ny nz : Nat) (T : Nat → R) :
   intro j hj
   rw [← Finset.sum_mul, col_sum_zero k A arr (Finset.mem_range.mp hj), zero_mul]
 
+/-- `H_ext[i]` -/
+def Hext (k A : R) (arr : Arr) (nx ny nz i : Nat) : R := k * A * ((ext arr nx ny nz i : Nat) : R)
+
+/-- **the conductance matrix in terms of the neighbour relation**: entry `(i, j)` of
+`H_int` is `k_int·A·([i, j exchange heat] − [i = j]·deg i)` -/
+theorem H_int_eq (k A : R) (arr : Arr) (hi : i < nTot nx ny nz) (hj : j < nTot nx ny nz) :
+    H k A arr nx ny nz i j
+      = k * A * ((if adj arr nx ny nz i j = true then 1 else 0)
+                  - (if i = j then ((deg arr nx ny nz i : Nat) : R) else 0)) := by
+  unfold H imat
+  by_cases h : i = j
+  · subst h
+    rw [adj_irrefl arr hi]
+    simp
+  · have h1 := (pair_once arr hi hj).1
+    have hadj : adj arr nx ny nz i j = true ↔ entry arr nx ny nz i j = 1 := by
+      unfold adj
+      constructor
+      · intro hne
+        have : entry arr nx ny nz i j ≠ 0 := by simpa using hne
+        omega
+      · intro he; simp [he]
+    by_cases ha : adj arr nx ny nz i j = true
+    · have := hadj.mp ha
+      simp [h, ha, this]
+    · have : entry arr nx ny nz i j = 0 := by
+        have : ¬ entry arr nx ny nz i j = 1 := fun e => ha (hadj.mpr e)
+        omega
+      simp [h, ha, this]
+
+/-- **the external conductance vector**: `H_ext[i] = k_ext·A·(maxNbr − #geometric neighbours)`,
+stated without truncation -/
+theorem H_ext_eq (k A : R) (arr : Arr) (hi : i < nTot nx ny nz) :
+    Hext k A arr nx ny nz i + k * A * ((geomDeg arr nx ny nz i : Nat) : R)
+      = k * A * ((maxNbr arr nz : Nat) : R) := by
+  unfold Hext
+  rw [← mul_add, ← Nat.cast_add, ext_eq arr hi]
+
 end heat
 
 /-! ### the code before fix F2 -/
